@@ -1208,12 +1208,26 @@ rrul_fill_mly(echs_instant_t *restrict tgt, size_t nti, rrulsp_t rr)
 
 	/* get m on track */
 	if (UNLIKELY(bui31_has_bits_p(rr->mon))) {
-		bitint_iter_t bm = 0UL;
+		unsigned int g = rr->inter;
+		unsigned int tmpm;
+		bool okp = false;
 
-		/* check that some of the months are congruent m modulo inter */
-		while (bui31_next(&bm, rr->mon) &&
-		       ((m + 12U) - (bm - 1U)) % rr->inter);
-		if (UNLIKELY(!bm)) {
+		/* the months we visit are M + k * INTER mod 12, that is all
+		 * months congruent M modulo gcd(INTER, 12), check that one
+		 * of the BYMONTHs is among them */
+		for (unsigned int a = 12U, b; g; b = a % g, a = g, g = b) {
+			if (!(a % g)) {
+				break;
+			}
+		}
+		for (bitint_iter_t bm = 0UL;
+		     (tmpm = bui31_next(&bm, rr->mon), bm);) {
+			if (!((tmpm + 12U - (unsigned int)m) % (g ?: 1U))) {
+				okp = true;
+				break;
+			}
+		}
+		if (UNLIKELY(!okp)) {
 			goto fin;
 		}
 		/* now skip to the first instance */
